@@ -26,6 +26,18 @@ points in between, reads in any order with the caller scribbling on the copies i
 expected answer of every query is still computed by the pure Lean model from (current graph content, options, mode)
 alone, so no history can leak into the expectation.
 
+Two further populations: `components` = pairs of MOLECULE SETS (multisets of small fragments over 1..3 fragment types:
+repeated mutually isomorphic components on either side, more components on one side, near-miss components; node ids of
+the two graphs in the same universe / disjoint ranges either way round / ranges shifted by 1..3 / even against odd /
+sparse; ids of one graph spread over its components in blocks, round robin or scattered), run in every ordinary mode
+against the model; and `component-entry` = the component-level entry points of the same class
+(`find_common_subgraph(..., mcs_mol=True)` of both variants, `find_rc_mapping(side="its", mcs_mol=True)` and
+`find_rc_mapping(side="its", component=True)`), one query per case, on molecule sets and on the other populations.
+For these entry points there is no Lean search model (they match whole components greedily and promise no maximum);
+their output is judged by the specification alone (`spec.mcs`: the returned mapping `IsCommonInduced` - injective,
+selected labels, bonds and orders both ways) plus "the two directions are mutually inverse".  `session-components`
+mixes gated component-level and ordinary queries on ONE matcher over a pool of molecule sets.
+
 When implementation and model differ, `spec.mcs` decides whether the property itself is violated
 on the implementation's output (then the input is shrunk and reported), otherwise the broken
 correspondence is reported without input.
@@ -61,8 +73,121 @@ def _unval_opt(xs):
     return None if xs is None else [graphio.unval(x) for x in xs]
 
 
+# Component-level entry points of the same matcher (no Lean search model; gated by the specification only):
+#   "mcs_mol"       find_common_subgraph(G1, G2, mcs=?, mcs_mol=True)                     main + MTG (`_find_mcs_mol`)
+#   "rc_mol"        find_rc_mapping(G1, G2, side="its", mcs=?, mcs_mol=True, component=False)   main (same code path)
+#   "rc_component"  find_rc_mapping(G1, G2, side="its", mcs=?, component=True)             main (`_componentwise_mcs`)
+# A case with the field "entry" is ONE query through that entry point ("entry_mcs", "entry_prune" = its flags).
+ENTRIES_MAIN = ["mcs_mol", "mcs_mol", "rc_mol", "rc_component", "rc_component"]
+ENTRIES_MTG = ["mcs_mol"]
+
+
+def is_ok(im):
+    return isinstance(im, dict) and "exception" not in im
+
+
+def modes_of(case, modes_main=None, modes_mtg=None):
+    if case.get("entry"):
+        return [(bool(case.get("entry_mcs", False)), bool(case.get("entry_prune", False)) and case.get("variant", "main") != "mtg")]
+    return (modes_mtg or MODES_MTG) if case.get("variant", "main") == "mtg" else (modes_main or MODES_MAIN)
+
+
+def call_entry(m, G1, G2, entry, mcs, mtg):
+    """The public call of one component-level entry point; returns what the call returned."""
+    if entry == "mcs_mol":
+        return m.find_common_subgraph(G1, G2, mcs=mcs, mcs_mol=True)
+    if entry == "rc_mol" and not mtg:
+        return m.find_rc_mapping(G1, G2, side="its", mcs=mcs, mcs_mol=True, component=False)
+    if entry == "rc_component" and not mtg:
+        return m.find_rc_mapping(G1, G2, side="its", mcs=mcs, component=True)
+    raise RuntimeError(f"harness: entry point {entry!r} does not exist for this variant")
+
+
+def read_record(m, mtg, fresh=None):
+    """Everything observable through get_mappings after a search -> record (same keys as the driver's `mcs.find`)."""
+    if mtg:
+        p2h = graphio_list(m.get_mappings())
+        return {"pattern_is_g1": True, "last_size": int(m.last_size), "pattern_to_host": p2h, "g1_to_g2": p2h,
+                "g2_to_g1": [sorted([h, p] for p, h in x) for x in p2h], "other_direction": None, "fresh": fresh}
+    try:
+        other = graphio_list(m.get_mappings("host_to_pattern"))
+    except ValueError:
+        other = "ValueError"
+    out = {"pattern_is_g1": m._last_pattern_is_G1, "last_size": int(m.last_size),
+           "pattern_to_host": graphio_list(m.get_mappings("pattern_to_host")),
+           "g1_to_g2": graphio_list(m.get_mappings("G1_to_G2")),
+           "g2_to_g1": graphio_list(m.get_mappings("G2_to_G1")),
+           "other_direction": other, "fresh": fresh}
+    if graphio_list(m.mappings) != out["pattern_to_host"]:
+        return {"exception": "mappings property differs from get_mappings('pattern_to_host')"}
+    return out
+
+
+def impl_run_entry(case, mcs, prune):
+    """One query through a component-level entry point on a fresh matcher."""
+    G1 = graphio.to_nx(case["g1"])
+    G2 = graphio.to_nx(case["g2"])
+    before = (graphio.graph(G1), graphio.graph(G2))
+    mtg = case.get("variant", "main") == "mtg"
+    try:
+        try:
+            m = _make_matcher(case, prune)
+        except ValueError:
+            return "ValueError"
+        ret = call_entry(m, G1, G2, case["entry"], mcs, mtg)
+        if not mtg and ret is not m:
+            return {"exception": case["entry"] + " did not return self"}
+        out = read_record(m, mtg)
+    except Exception as e:
+        return {"exception": type(e).__name__ + ": " + str(e)[:200]}
+    if (graphio.graph(G1), graphio.graph(G2)) != before:
+        return {"exception": "input graph mutated"}
+    return out
+
+
+def inv_pairs(m):
+    return sorted([h, p] for p, h in m)
+
+
+def entry_diffs(im):
+    """Observables of a component-level query that are not the property itself (there is no Lean search model for these
+    entry points): it must run, leave the inputs alone, and 'pattern_to_host' must be the direction its flag names."""
+    if isinstance(im, str):
+        return [f"constructor outcome {im!r}"]
+    if "exception" in im:
+        return ["implementation raised / misbehaved: " + im["exception"]]
+    d = []
+    if im["pattern_is_g1"] is None:
+        d.append("no orientation recorded after a search")
+    elif im["pattern_to_host"] != (im["g1_to_g2"] if im["pattern_is_g1"] else im["g2_to_g1"]):
+        d.append("pattern_to_host is not the direction named by the orientation flag")
+    return d
+
+
+def entry_verdict(im, spec):
+    """C12 on the output of a component-level query: every returned mapping is a common induced sub-graph (injective,
+    selected labels, bonds and their orders both ways) and the two directions are mutually inverse.  Nothing about
+    size: these modes match whole components greedily and do not promise a maximum common sub-graph."""
+    if not is_ok(im) or spec is None:
+        return []
+    v = []
+    if not spec["all_valid"]:
+        v.append("a returned mapping is not a common induced subgraph (injective / labels / bonds both ways)")
+    if [inv_pairs(m) for m in im["g1_to_g2"]] != im["g2_to_g1"] or [inv_pairs(m) for m in im["g2_to_g1"]] != im["g1_to_g2"]:
+        v.append("the two directions are not mutually inverse")
+    return v
+
+
+def judge_one(case, mcs, prune, im, model, spec):
+    if case.get("entry"):
+        return entry_diffs(im), entry_verdict(im, spec)
+    return structural_diffs(im, model, model, mcs, prune), spec_verdict(im, spec, mcs)
+
+
 def impl_run(case, mcs, prune):
     """Run the real matcher; returns the same record as the driver's `mcs.find`."""
+    if case.get("entry"):
+        return impl_run_entry(case, mcs, prune)
     G1 = graphio.to_nx(case["g1"])
     G2 = graphio.to_nx(case["g2"])
     G1c, G2c = copy.deepcopy(G1), copy.deepcopy(G2)
@@ -210,27 +335,27 @@ def spec_verdict(impl, spec, mcs):
 
 def evaluate(ctx, case, modes=None):
     """Full evaluation of one case (used by shrink and replay): -> (diffs, spec_violations)."""
-    variant = case.get("variant", "main")
-    modes = modes or (MODES_MTG if variant == "mtg" else MODES_MAIN)
+    modes = modes or modes_of(case)
     impls = [impl_run(case, mcs, prune) for mcs, prune in modes]
     reqs = []
     for (mcs, prune), im in zip(modes, impls):
-        reqs.append(find_req(case, mcs, False))
+        reqs.append(None if case.get("entry") else find_req(case, mcs, False))
         if isinstance(im, dict) and "exception" not in im:
             reqs.append(spec_req(case, im["g1_to_g2"], im["last_size"]))
         else:
             reqs.append(None)
     idx = [i for i, r in enumerate(reqs) if r is not None]
-    ans = ctx.lean().ok([reqs[i] for i in idx])
+    ans = ctx.lean().ok([reqs[i] for i in idx]) if idx else []
     full = [None] * len(reqs)
     for i, a in zip(idx, ans):
         full[i] = a
     diffs, viols = [], []
     for j, ((mcs, prune), im) in enumerate(zip(modes, impls)):
         model, spec = full[2 * j], full[2 * j + 1]
-        tag = f"[mcs={mcs} prune={prune}] "
-        diffs += [tag + s for s in structural_diffs(im, model, model, mcs, prune)]
-        viols += [tag + s for s in spec_verdict(im, spec, mcs)]
+        tag = (f"[{case['entry']} mcs={mcs} prune={prune}] " if case.get("entry") else f"[mcs={mcs} prune={prune}] ")
+        d, v = judge_one(case, mcs, prune, im, model, spec)
+        diffs += [tag + s for s in d]
+        viols += [tag + s for s in v]
     return diffs, viols
 
 
@@ -543,25 +668,36 @@ def judge_jobs(ctx, jobs, tag):
     reqs = []
     slots = []
     for case, mcs, prune, im, _canon, _hist in jobs:
-        s = {"model": len(reqs)}
-        reqs.append(find_req(case, mcs, False))
+        s = {}
+        entry = case.get("entry")
+        if not entry:
+            s["model"] = len(reqs)
+            reqs.append(find_req(case, mcs, False))
         if isinstance(im, dict) and "exception" not in im:
             s["spec"] = len(reqs)
             reqs.append(spec_req(case, im["g1_to_g2"], im["last_size"]))
-        if prune:
+        if prune and not entry:
             s["pruned_model"] = len(reqs)
             reqs.append(find_req(case, mcs, True))
         slots.append(s)
-    ans = ctx.lean().ok(reqs, shards=8)
+    ans = ctx.lean().ok(reqs, shards=8) if reqs else []
     verdicts = []
     for (case, mcs, prune, im, canon, hist), s in zip(jobs, slots):
-        model = ans[s["model"]]
+        entry = case.get("entry")
+        model = ans[s["model"]] if "model" in s else None
         spec = ans[s["spec"]] if "spec" in s else None
         stats(ctx, case, mcs, prune, im, tag)
         n1, n2 = len(case["g1"]["nodes"]), len(case["g2"]["nodes"])
         ctx.count(f"sizes:{n1}x{n2}")
         nontriv = False
-        if isinstance(im, dict) and "exception" not in im and mcs:
+        if entry:
+            ctx.count("entry:" + entry)
+            if is_ok(im):
+                k = im["last_size"]
+                ctx.count("entry_coverage:" + ("none" if k == 0 else "all-of-G1" if k == n1 else "part"))
+                # a component-level answer counts when it maps at least two atoms
+                nontriv = k >= 2
+        elif isinstance(im, dict) and "exception" not in im and mcs:
             k = im["last_size"]
             nontriv = (k >= 2 and k < n1 and k < n2) or (k >= 1 and len(im["pattern_to_host"]) >= 2)
         if hist is not None:  # a query on a matcher that has already answered others
@@ -570,8 +706,7 @@ def judge_jobs(ctx, jobs, tag):
                  sample={"stream": tag, "mcs": mcs, "prune": prune, "case": case,
                          "impl": im if not isinstance(im, dict) else {k: im.get(k) for k in ("pattern_is_g1", "last_size", "g1_to_g2")}}
                  if (nontriv and n1 <= 4 and n2 <= 4 and hist is None) else None)
-        diffs = structural_diffs(im, model, model, mcs, prune)
-        viols = spec_verdict(im, spec, mcs)
+        diffs, viols = judge_one(case, mcs, prune, im, model, spec)
         if isinstance(im, dict) and "exception" not in im and isinstance(model, dict):
             if not prune:
                 ctx.count("result_order_agrees:" + ("yes" if im["pattern_to_host"] == model["pattern_to_host"] else "no"))
@@ -589,8 +724,7 @@ def run_cases(ctx, cases, tag, modes_main=MODES_MAIN, modes_mtg=MODES_MTG):
     """Evaluate cases in every mode (a fresh matcher per query); one batched driver call."""
     jobs = []
     for case in cases:
-        modes = modes_mtg if case.get("variant", "main") == "mtg" else modes_main
-        for mcs, prune in modes:
+        for mcs, prune in modes_of(case, modes_main, modes_mtg):
             jobs.append((case, mcs, prune, impl_run(case, mcs, prune), None, None))
     bad_cases = {}
     for (case, mcs, prune, im, _c, _h), (diffs, viols) in zip(jobs, judge_jobs(ctx, jobs, tag)):
@@ -608,9 +742,19 @@ def report(ctx, case, diffs, viols, tag):
     if viols:
         small = shrink_case(ctx, case, want_spec=True)
         d2, v2 = evaluate(ctx, small)
-        ctx.violation("common-subgraph matcher output violates C12 (validity / equal size / maximality / inverse directions)",
+        what = "common-subgraph matcher output violates C12 (validity / equal size / maximality / inverse directions)"
+        if case.get("entry"):
+            what = (f"common-subgraph matcher output violates C12 (validity / inverse directions) in component-level mode "
+                    f"'{case['entry']}' (see ENTRIES in harness/props/c12.py for the call)")
+        ctx.violation(what,
                       small, {"spec_violations": v2 or viols, "differences_from_model": (d2 or diffs)[:8], "stream": tag,
-                              "impl": {f"mcs={m},prune={p}": impl_run(small, m, p) for m, p in (MODES_MTG if small.get("variant") == "mtg" else MODES_MAIN)}})
+                              "impl": {f"mcs={m},prune={p}": impl_run(small, m, p) for m, p in modes_of(small)}})
+    elif case.get("entry"):
+        small = shrink_case(ctx, case, want_spec=False)
+        d2, _ = evaluate(ctx, small)
+        ctx.violation(f"component-level entry point '{case['entry']}' of MCSMatcher raised / mutated its input / reports an orientation "
+                      "that is not one of its two directions; the specification is not violated on what it returned",
+                      small, {"differences": (d2 or diffs)[:8], "stream": tag}, no_input=True)
     else:
         small = shrink_case(ctx, case, want_spec=False)
         d2, _ = evaluate(ctx, small)
@@ -834,12 +978,258 @@ def rare_case(rnd, variant, kind):
 RARE_KINDS = ["sym_break", "sym_break", "tuple_swap", "tuple_swap", "spectator", "missing_opt", "identical"]
 
 
+# ---------------------------------------------------------------- molecule sets: several components, repeated ones
+# Both graphs are multisets of small connected fragments drawn from 1..3 fragment TYPES, so that mutually isomorphic
+# components occur inside one graph and across the two graphs (two equivalents of a reagent, the same molecule on
+# both sides, ...).  What varies: which side has repeats / more components, near-miss components (one edit away from a
+# type), and - independently - how the node ids of the two graphs relate (same universe, disjoint ranges with either
+# graph lower, ranges shifted by 1..3, one graph on even and the other on odd ids) and how the ids of one graph are
+# spread over its components (consecutive blocks, round robin, scattered).  Every component instance gets its own
+# internal node numbering, insertion order is shuffled over the whole graph.
+FRAGS = [
+    (["C", "O"], [(0, 1, 1.0)]),
+    (["C", "O"], [(0, 1, 2.0)]),
+    (["C", "C"], [(0, 1, 1.0)]),
+    (["N", "C"], [(0, 1, 3.0)]),
+    (["C", "C", "O"], [(0, 1, 1.0), (1, 2, 2.0)]),
+    (["C", "C", "O"], [(0, 1, 1.0), (1, 2, 1.0)]),
+    (["C", "C", "C"], [(0, 1, 1.5), (1, 2, 1.5), (0, 2, 1.5)]),
+    (["C", "N", "C"], [(0, 1, 1.0), (1, 2, 1.0)]),
+    (["O"], []),
+    (["C"], []),
+    (["Cl"], []),
+    (["C", "C", "C", "O"], [(0, 1, 1.0), (1, 2, 1.0), (2, 3, 1.0)]),
+    (["C", "O", "O", "C"], [(0, 1, 2.0), (0, 2, 1.0), (2, 3, 1.0)]),
+    (["C", "C", "C", "C"], [(0, 1, 1.0), (1, 2, 1.0), (2, 3, 1.0), (0, 3, 1.0)]),
+]
+
+
+def frag(rnd, nmax, rich):
+    """One connected fragment (nodes dict, edges dict), local ids 0..; `rich` adds hcount / w (nodes) and w (edges)."""
+    if rnd.random() < 0.55:
+        labels, es = rnd.choice([f for f in FRAGS if len(f[0]) <= nmax])
+        ns = {i: {"element": el, "charge": 0} for i, el in enumerate(labels)}
+        ed = {(u, v): {"order": o, "standard_order": o} for u, v, o in es}
+    else:
+        ns, ed = rand_mol(rnd, rnd.randint(1, nmax), ring_p=0.25, charge_p=0.1)
+    if rich:
+        for at in ns.values():
+            at["hcount"] = rnd.choice([0, 0, 1, 2, 3])
+            at["w"] = rnd.choice([1, 1, 2])
+        for at in ed.values():
+            at["w"] = rnd.choice([1, 1, 2, 1.5])
+    return ns, ed
+
+
+def frag_copy(f):
+    return {i: dict(a) for i, a in f[0].items()}, {e: dict(a) for e, a in f[1].items()}
+
+
+def frag_variant(rnd, f):
+    """A near miss: the fragment with ONE attribute of one atom / bond changed (value, tuple order reversed or
+    introduced, attribute dropped)."""
+    ns, ed = frag_copy(f)
+    kinds = ["element", "charge"] + (["order", "order", "standard_order", "tuple", "missing"] if ed else [])
+    what = rnd.choice(kinds)
+    if what in ("element", "charge"):
+        i = rnd.choice(list(ns))
+        if what == "element":
+            ns[i]["element"] = rnd.choice([e for e in ["C", "N", "O", "S"] if e != ns[i].get("element")])
+        else:
+            ns[i]["charge"] = rnd.choice([c for c in [0, 1, -1] if c != ns[i].get("charge")])
+    else:
+        e = rnd.choice(list(ed))
+        o = ed[e].get("order", 1.0)
+        if isinstance(o, tuple):
+            ed[e]["order"] = tuple(reversed(o)) if what != "missing" else o[0]
+        elif what == "tuple":
+            ed[e]["order"] = (o, rnd.choice([x for x in [1.0, 2.0, 1.5] if x != o]))
+        elif what == "missing":
+            ed[e].pop("order", None)
+        else:
+            ed[e][what] = rnd.choice([x for x in [1.0, 2.0, 1.5, 3.0] if x != ed[e].get(what)])
+    return ns, ed
+
+
+COMP_RELATIONS = ["same", "same", "fewer", "more", "more", "nearmiss", "nearmiss", "independent"]
+ID_RELATIONS = ["same", "disjoint", "disjoint", "shifted", "shifted", "parity", "sparse"]
+ID_STYLES = ["block", "block", "roundrobin", "scattered"]
+
+
+def comp_multisets(rnd, cap1, cap2, rich):
+    """-> (components of G1, components of G2, relation) as fragment lists."""
+    fmax = rnd.choice([1, 2, 2, 3, 3, 4])
+    types = [frag(rnd, fmax, rich) for _ in range(rnd.choice([1, 2, 2, 3]))]
+    if rnd.random() < 0.12:  # a type that carries a tuple-valued order
+        t = rnd.choice(types)
+        if t[1]:
+            e = rnd.choice(list(t[1]))
+            t[1][e]["order"] = tuple(rnd.sample([1.0, 2.0, 1.5], 2))
+    c1 = [rnd.randrange(len(types)) for _ in range(rnd.randint(2, 4))]
+    if len(set(c1)) == len(c1) and rnd.random() < 0.8:
+        c1[-1] = c1[0]  # at least one repeated type
+    rel = rnd.choice(COMP_RELATIONS)
+    a = [frag_copy(types[t]) for t in c1]
+    if rel == "same":
+        b = [frag_copy(types[t]) for t in c1]
+    elif rel == "fewer":
+        keep = sorted(rnd.sample(range(len(c1)), rnd.randint(1, len(c1) - 1)))
+        b = [frag_copy(types[c1[i]]) for i in keep]
+    elif rel == "more":
+        b = [frag_copy(types[t]) for t in c1 + [rnd.choice(c1) for _ in range(rnd.randint(1, 2))]]
+    elif rel == "nearmiss":
+        b = [frag_copy(types[t]) for t in c1]
+        for i in rnd.sample(range(len(b)), rnd.choice([1, 1, 2]) if len(b) > 1 else 1):
+            b[i] = frag_variant(rnd, b[i])
+        if rnd.random() < 0.4:
+            b.append(frag_copy(types[rnd.choice(c1)]))
+    else:
+        b = [frag_copy(types[rnd.randrange(len(types))]) for _ in range(rnd.randint(1, 4))]
+    for g in (a, b):  # a component that has no partner at all
+        if rnd.random() < 0.15:
+            g.append(frag_copy(frag(rnd, 2, rich)))
+    if rnd.random() < 0.5:  # repeats / the larger multiset on either side
+        a, b = b, a
+    rnd.shuffle(a)
+    rnd.shuffle(b)
+    for g, cap in ((a, cap1), (b, cap2)):
+        while len(g) > 1 and sum(len(f[0]) for f in g) > cap:
+            g.pop()
+    return a, b, rel
+
+
+def layout(rnd, comps, base, step, style, sparse):
+    """Give the components of one graph their node ids -> (node list, edge list) in shuffled insertion order."""
+    n = sum(len(f[0]) for f in comps)
+    slots = sorted(rnd.sample(range(base, base + 3 * n + 2), n)) if sparse else [base + step * i for i in range(n)]
+    owner = []
+    if style == "block":
+        for k, f in enumerate(comps):
+            owner += [k] * len(f[0])
+    elif style == "roundrobin":
+        left = [len(f[0]) for f in comps]
+        while any(left):
+            for k in range(len(comps)):
+                if left[k]:
+                    owner.append(k)
+                    left[k] -= 1
+    else:
+        for k, f in enumerate(comps):
+            owner += [k] * len(f[0])
+        rnd.shuffle(owner)
+    ns, es = [], []
+    for k, f in enumerate(comps):
+        mine = [s for s, o in zip(slots, owner) if o == k]
+        rnd.shuffle(mine)  # own internal numbering of every instance
+        g = dict(zip(list(f[0]), mine))
+        ns += [(g[i], dict(a)) for i, a in f[0].items()]
+        es += [(g[u], g[v], dict(a)) for (u, v), a in f[1].items()]
+    rnd.shuffle(ns)
+    rnd.shuffle(es)
+    es = [(v, u, a) if rnd.random() < 0.5 else (u, v, a) for u, v, a in es]
+    return ns, es
+
+
+def comp_case(rnd, variant, cap1, cap2, counts=None):
+    """One pair of molecule sets with its option set."""
+    rich = rnd.random() < 0.35
+    a, b, rel = comp_multisets(rnd, cap1, cap2, rich)
+    idrel = rnd.choice(ID_RELATIONS)
+    base1 = rnd.choice([0, 1, 10, 20])
+    step = 1
+    sparse = False
+    if idrel == "same":
+        base2 = base1
+    elif idrel == "disjoint":
+        base2 = base1 + 40
+        if rnd.random() < 0.5:
+            base1, base2 = base2, base1  # first graph on the higher ids
+    elif idrel == "shifted":
+        base2 = base1 + rnd.randint(1, 3)
+    elif idrel == "parity":
+        step = 2
+        base2 = base1 + 1
+        if rnd.random() < 0.5:
+            base1, base2 = base2, base1
+    else:
+        sparse = True
+        base2 = base1 if rnd.random() < 0.5 else base1 + rnd.randint(1, 3)
+    s1, s2 = rnd.choice(ID_STYLES), rnd.choice(ID_STYLES)
+    na, ea = layout(rnd, a, base1, step, s1, sparse)
+    nb, eb = layout(rnd, b, base2, step, s2, sparse)
+    if rich:
+        cfg = rand_cfg(rnd, variant)
+    else:
+        cfg = dict(rnd.choice(CFGS))
+        if variant == "mtg":
+            cfg["edge_keys"] = [cfg["edge_keys"][0]] if cfg["edge_keys"] else (None if cfg["edge_keys"] is None else ["order"])
+    if variant == "main" and "prune_wc" not in cfg and rnd.random() < 0.1:
+        # wildcard atoms hanging on / standing next to the molecules, removed before the search
+        cfg["prune_wc"] = ["element", V("*")]
+        for ns, es in ((na, ea), (nb, eb)):
+            for _ in range(rnd.randint(0, 2)):
+                new = max(i for i, _ in ns) + 1
+                ns.append((new, {"element": "*", "charge": 0}))
+                if rnd.random() < 0.6:
+                    es.append((rnd.choice(ns[:-1])[0], new, {"order": 1.0, "standard_order": 1.0}))
+    if counts is not None:
+        counts(f"comp_relation:{rel}")
+        counts(f"comp_ids:{idrel}")
+        counts(f"comp_layout:{s1}/{s2}")
+        counts(f"comp_counts:{len(a)}v{len(b)}")
+    return {"g1": mk_graph(na, ea), "g2": mk_graph(nb, eb), "variant": variant, **cfg}
+
+
+def with_entry(rnd, case):
+    """Turn a pair into ONE query through a component-level entry point."""
+    mtg = case.get("variant", "main") == "mtg"
+    entry = rnd.choice(ENTRIES_MTG if mtg else ENTRIES_MAIN)
+    return {**case, "entry": entry, "entry_mcs": rnd.random() < 0.5, "entry_prune": (not mtg) and rnd.random() < 0.3}
+
+
+def comp_session(rnd, variant):
+    """One matcher object answers component-level and ordinary queries on a pool of molecule sets that is built once:
+    the base pair, a relabelled copy of one of them on other ids, one of them with a component removed / doubled."""
+    base = comp_case(rnd, variant, 5, 5)
+    pool = [base["g1"], base["g2"]]
+    src = rnd.choice(pool)
+    ids = [n[0] for n in src["nodes"]]
+    f = dict(zip(ids, rnd.sample(range(60, 60 + 2 * len(ids) + 2), len(ids))))
+    ns = [[f[n[0]], copy.deepcopy(n[1])] for n in src["nodes"]]
+    es = [[f[e[0]], f[e[1]], copy.deepcopy(e[2])] for e in src["edges"]]
+    rnd.shuffle(ns)
+    rnd.shuffle(es)
+    pool.append({"nodes": ns, "edges": es})
+    if rnd.random() < 0.6:
+        pool.append(derive_graph_json(rnd, rnd.choice(pool[:2])))
+    sess = {"session": True, **cfg_fields(base), "prune": variant == "main" and rnd.random() < 0.3, "graphs": pool, "steps": []}
+    entries = ENTRIES_MTG if variant == "mtg" else ENTRIES_MAIN
+    pair = (0, 1)
+    for k in range(rnd.randint(3, 6)):
+        r = rnd.random()
+        if k and r < 0.3:
+            pass  # the same two objects again (entry point / mode drawn anew)
+        elif k and r < 0.5:
+            pair = (pair[1], pair[0])
+        elif k:
+            pair = (rnd.randrange(len(pool)), rnd.randrange(len(pool)))
+        if k and rnd.random() < 0.12 and variant == "main":
+            sess["steps"].append({"op": "set_prune", "value": rnd.random() < 0.5})
+        st = {"op": "find", "a": pair[0], "b": pair[1], "mcs": rnd.random() < 0.5, "peek": rand_peek(rnd)}
+        if rnd.random() < 0.7:
+            st["entry"] = rnd.choice(entries)
+        sess["steps"].append(st)
+    return sess
+
+
 # ---------------------------------------------------------------- sessions: one matcher object, many queries
 # A session is {"session": true, variant, option fields, "prune": bool, "graphs": [graph JSON ...], "steps": [...]}.
 # The graphs of the pool are built ONCE as networkx objects and handed to the matcher again and again, so anything the
 # implementation remembers between calls (on the instance, the class, the module, or keyed by graph identity / content)
 # is exercised.  Steps:
 #   {"op": "find", "a": i, "b": j, "mcs": bool, "peek": [[direction, mutate] ...]}   gated query (pool objects i, j)
+#       with the optional field "entry": "mcs_mol" | "rc_mol" | "rc_component" the query goes through that component-level
+#       entry point (see ENTRIES_MAIN) and is judged by the specification alone
 #   {"op": "set_graph", "g": i, "graph": J}     the pool object i is changed IN PLACE to content J (same identity)
 #   {"op": "new_object", "g": i}                pool object i is replaced by an equal deep copy (new identity)
 #   {"op": "set_prune", "value": bool}          main variant: the public attribute prune_automorphisms is changed
@@ -929,11 +1319,14 @@ def session_run(sess):
             G1, G2 = objs[st["a"]], objs[st["b"]]
             case = {"g1": cur[st["a"]], "g2": cur[st["b"]], **cfg}
             mcs = bool(st["mcs"])
+            entry = st.get("entry")  # a gated query through a component-level entry point (judged by the specification)
+            if entry:
+                case.update(entry=entry, entry_mcs=mcs, entry_prune=prune)
             before = (graphio.graph(G1), graphio.graph(G2))
             try:
                 fresh = graphio_list(m.get_mappings() if mtg else m.get_mappings("host_to_pattern")) if virgin else []
                 virgin = False
-                ret = m.find_common_subgraph(G1, G2, mcs=mcs)
+                ret = call_entry(m, G1, G2, entry, mcs, mtg) if entry else m.find_common_subgraph(G1, G2, mcs=mcs)
                 # reads in between, in any order; the caller may do what it likes with the COPIES it was given
                 for d, mutate in st.get("peek", []):
                     if mtg:
@@ -991,18 +1384,19 @@ def evaluate_session(ctx, sess):
     reqs, where = [], []
     for si, case, mcs, prune, im, _ in runs:
         where.append(len(reqs))
-        reqs.append(find_req(case, mcs, False))
+        reqs.append(None if case.get("entry") else find_req(case, mcs, False))
         reqs.append(spec_req(case, im["g1_to_g2"], im["last_size"]) if "exception" not in im else None)
     idx = [i for i, r in enumerate(reqs) if r is not None]
     full = [None] * len(reqs)
-    for i, a in zip(idx, ctx.lean().ok([reqs[i] for i in idx])):
+    for i, a in zip(idx, ctx.lean().ok([reqs[i] for i in idx]) if idx else []):
         full[i] = a
     diffs, viols = [], []
     for (si, case, mcs, prune, im, _), w in zip(runs, where):
         st = sess["steps"][si] if si < len(sess["steps"]) else {}
-        tag = f"[step {si}: find(graph {st.get('a')}, graph {st.get('b')}, mcs={mcs}) prune={prune}] "
-        diffs += [tag + x for x in structural_diffs(im, full[w], full[w], mcs, prune)]
-        viols += [tag + x for x in spec_verdict(im, full[w + 1], mcs)]
+        tag = f"[step {si}: {case.get('entry') or 'find'}(graph {st.get('a')}, graph {st.get('b')}, mcs={mcs}) prune={prune}] "
+        d, v = judge_one(case, mcs, prune, im, full[w], full[w + 1])
+        diffs += [tag + x for x in d]
+        viols += [tag + x for x in v]
     return diffs, viols
 
 
@@ -1220,8 +1614,10 @@ def run(ctx):
         "NetworkX VF2 `GraphMatcher.subgraph_isomorphisms_iter` enumerates exactly the induced embeddings satisfying the closures "
         "(modelled by the proven enumerator Match.allInduced; checked here only through the comparison of result sets)",
         "Driver/Mcs.lean JSON codec, harness/props/c12.py adapter and canonicalisation (each mapping sorted by key, mapping sets sorted)",
-        "out of scope (not modelled): mcs_mol=True (_find_mcs_mol), find_rc_mapping, _componentwise_mcs (in sessions they are "
-        "called between gated queries, their own results are not judged)",
+        "not modelled in Lean (no search model, hence no maximality / completeness claim): mcs_mol=True (_find_mcs_mol), "
+        "find_rc_mapping(side='its'), _componentwise_mcs; their outputs are judged by the Lean specification spec.mcs "
+        "(IsCommonInduced of every returned mapping) and by the inverse-directions gate only; find_rc_mapping with its_decompose "
+        "(sides r / l / op) is out of scope",
     ]
     ctx.assumptions = [
         "selected edge attribute values are numbers (multiples of 1/2), None or tuples of such; selected node attribute values are "
@@ -1252,11 +1648,22 @@ def run(ctx):
         "rare generators with derived pool objects (equal copy, relabelled copy, induced part, one-edit neighbour), steps drawn from: same "
         "objects again (other/same mode), swapped, other pool objects (also the same object twice), in-place content change of an object, "
         "equal copy as new object, prune_automorphisms switched, new matcher, other entry points (mcs_mol, find_rc_mapping) as ungated noise, "
-        "reads in between in any order with the returned copies cleared by the caller."
+        "reads in between in any order with the returned copies cleared by the caller. "
+        "COMPONENTS stream: pairs of molecule sets - 1..3 fragment types (library of 1..4-atom fragments or random molecules, optionally "
+        "enriched with hcount / w and a random option set), G1 = 2..4 components with a repeated type, G2 = same multiset / fewer / more "
+        "(extra repeats) / near miss (one attribute of one atom or bond changed, tuple order reversed, order dropped) / independent, sides "
+        "swapped half the time, a partnerless component in 15%; ids: same universe / disjoint (either graph lower) / shifted by 1..3 / "
+        "even-odd / sparse, spread over the components as blocks / round robin / scattered, own numbering per component instance, shuffled "
+        "insertion; up to 6x7 atoms in all ordinary modes. COMPONENT-ENTRY stream: 4/6 molecule sets up to 9x9 atoms, 1/6 options or rare "
+        "pairs, 1/6 random pairs, each as ONE query through mcs_mol (main, MTG) / find_rc_mapping(side='its', mcs_mol=True) / "
+        "find_rc_mapping(side='its', component=True) with seeded mcs and prune_automorphisms flags. SESSION-COMPONENTS: 3..6 queries on one "
+        "matcher over {pair of molecule sets, a relabelled copy on other ids, a derived object}, 70% component-level entry points, "
+        "30% ordinary finds, same objects again / swapped / other objects, prune switched."
     )
     ctx.nontrivial_rule = ("(pair, mode) distinct as JSON, run in maximum mode, with mcs size >= 2 and smaller than both graphs, "
                            "or with >= 2 maximum mappings; a session step counts when the matcher object has answered at least one "
-                           "earlier query and the answer has size >= 2 (distinct by session and step)")
+                           "earlier query and the answer has size >= 2 (distinct by session and step); a component-level query "
+                           "counts when the returned mapping has >= 2 atoms")
     build_and_audit(ctx, ["SynKitProofs.Props.C12"], "SynKitProofs/Audit/C12.lean", THEOREMS)
 
     ok = True
@@ -1330,6 +1737,29 @@ def run(ctx):
     if ok:
         ok &= run_cases(ctx, rare, "rare")
 
+    # ---- molecule sets (repeated isomorphic components, more components on one side, id ranges same / disjoint /
+    #      shifted / interleaved) in every ordinary mode, compared with the Lean model like any other pair
+    ncomp = 140 if ctx.quick else 2500
+    ccases = [comp_case(ctx.rnd, "mtg" if ctx.rnd.random() < 0.2 else "main", 6, 7, ctx.count) for _ in range(ncomp)]
+    if ok:
+        ok &= run_cases(ctx, ccases, "components")
+    # ---- the component-level entry points (mcs_mol, find_rc_mapping side='its' with mcs_mol / component), one query per
+    #      case on a fresh matcher; judged by the specification (validity of the returned mapping, inverse directions)
+    nentry = 1200 if ctx.quick else 12000
+    ecases = []
+    for i in range(nentry):
+        variant = "mtg" if ctx.rnd.random() < 0.2 else "main"
+        src = i % 6
+        if src < 4:
+            base = comp_case(ctx.rnd, variant, 9, 9, ctx.count)
+        elif src == 4:
+            base = options_case(ctx.rnd, variant) if (i // 6) % 2 else rare_case(ctx.rnd, variant, RARE_KINDS[(i // 12) % len(RARE_KINDS)])
+        else:
+            base = rand_case(ctx.rnd, KINDS[(i // 6) % len(KINDS)], variant)
+        ecases.append(with_entry(ctx.rnd, base))
+    if ok:
+        ok &= run_cases(ctx, ecases, "component-entry")
+
     # ---- hidden state: ONE matcher object answers a sequence of queries on graph objects that are built once
     pairs = [(a, b) for a in range(len(cls3)) for b in range(len(cls3))]
     if ctx.quick:
@@ -1353,8 +1783,12 @@ def run(ctx):
         sessions.append(rand_session(ctx.rnd, base, ctx.rnd.randint(2, 6)))
     if ok:
         ok &= run_sessions(ctx, sessions, "session-random")
+    ncs = 150 if ctx.quick else 1500
+    csessions = [comp_session(ctx.rnd, "mtg" if ctx.rnd.random() < 0.2 else "main") for _ in range(ncs)]
+    if ok:
+        ok &= run_sessions(ctx, csessions, "session-components")
     ctx.obligation("correspondence: MCSMatcher (both variants, every mode and direction) == model SynKit.Mcs.find; "
-                   "spec.mcs holds on every implementation output", not ctx.violations)
+                   "spec.mcs holds on every implementation output (component-level entry points included)", not ctx.violations)
 
 
 def replay(ctx, case):
